@@ -400,7 +400,14 @@ func buildTargets() []*target {
 	ecKey := &ecdsa.PrivateKey{PublicKey: ecdsa.PublicKey{Curve: elliptic.P256()}, D: new(big.Int).SetBytes(gen.Fill(91, 31))}
 	ecKey.X, ecKey.Y = elliptic.P256().ScalarBaseMult(ecKey.D.Bytes())
 	ecCertDER := must(smx509.CreateCertificate(rnd, &x509.Certificate{SerialNumber: big.NewInt(77), Subject: pkix.Name{CommonName: "ec"}, NotBefore: refNotBefore, NotAfter: refNotAfter, DNSNames: []string{"ec.example"}}, ca.ToX509(), &ecKey.PublicKey, caKey))
-	edPub, _, _ := ed25519.GenerateKey(rnd)
+	edPub, edPriv, _ := ed25519.GenerateKey(rnd)
+	// self-signed certificates and requests whose OWN key verifies them, for every key family
+	edSelfDER := must(smx509.CreateCertificate(rnd, &x509.Certificate{SerialNumber: big.NewInt(80), Subject: pkix.Name{CommonName: "edself"}, NotBefore: refNotBefore, NotAfter: refNotAfter, IsCA: true, BasicConstraintsValid: true, KeyUsage: x509.KeyUsageCertSign},
+		&x509.Certificate{SerialNumber: big.NewInt(80), Subject: pkix.Name{CommonName: "edself"}}, edPub, edPriv))
+	rsaSelfDER := must(smx509.CreateCertificate(rnd, &x509.Certificate{SerialNumber: big.NewInt(81), Subject: pkix.Name{CommonName: "rsaself"}, NotBefore: refNotBefore, NotAfter: refNotAfter, IsCA: true, BasicConstraintsValid: true, KeyUsage: x509.KeyUsageCertSign, SignatureAlgorithm: x509.SHA256WithRSAPSS},
+		&x509.Certificate{SerialNumber: big.NewInt(81), Subject: pkix.Name{CommonName: "rsaself"}}, &testkeys.RSA2048().PublicKey, testkeys.RSA2048()))
+	csrEd := must(smx509.CreateCertificateRequest(rnd, &x509.CertificateRequest{Subject: pkix.Name{CommonName: "csr-ed"}, EmailAddresses: []string{"x@example.com"}}, edPriv))
+	csrRSA := must(smx509.CreateCertificateRequest(rnd, &x509.CertificateRequest{Subject: pkix.Name{CommonName: "csr-rsa"}, URIs: []*url.URL{{Scheme: "https", Host: "example.com"}}}, testkeys.RSA1024()))
 	edCertDER := must(smx509.CreateCertificate(rnd, &x509.Certificate{SerialNumber: big.NewInt(78), Subject: pkix.Name{CommonName: "ed"}, NotBefore: refNotBefore, NotAfter: refNotAfter}, ca.ToX509(), edPub, caKey))
 	rsaCertDER := must(smx509.CreateCertificate(rnd, &x509.Certificate{SerialNumber: big.NewInt(79), Subject: pkix.Name{CommonName: "rsa0"}, NotBefore: refNotBefore, NotAfter: refNotAfter}, ca.ToX509(), &testkeys.RSA1024().PublicKey, caKey))
 	add("x509", "smx509.ParseCertificate(rich)", func(b []byte) int {
@@ -415,7 +422,7 @@ func buildTargets() []*target {
 			c.ToX509()
 		}
 		return d(err)
-	}, richDER, ecCertDER, edCertDER, rsaCertDER)
+	}, richDER, ecCertDER, edCertDER, rsaCertDER, edSelfDER, rsaSelfDER)
 	add("x509", "smx509.ParseCertificate", func(b []byte) int {
 		c, err := smx509.ParseCertificate(b)
 		if err == nil {
@@ -438,7 +445,7 @@ func buildTargets() []*target {
 			c.CheckSignature()
 		}
 		return d(err)
-	}, csr)
+	}, csr, csrEd, csrRSA)
 	add("x509", "smx509.ParseCertificateRequestPEM", func(b []byte) int { _, err := smx509.ParseCertificateRequestPEM(b); return d(err) }, pem.EncodeToMemory(&pem.Block{Type: "CERTIFICATE REQUEST", Bytes: csr}))
 	crl := must(smx509.CreateRevocationList(rnd, &x509.RevocationList{Number: big.NewInt(5), ThisUpdate: refNotBefore, NextUpdate: refNotAfter,
 		RevokedCertificateEntries: []x509.RevocationListEntry{{SerialNumber: big.NewInt(7), RevocationTime: refNotBefore}}}, ca, caKey))
